@@ -2,6 +2,7 @@ import Refine.Model.Rcb
 import Refine.Lemmas.Rcb
 import Refine.Lemmas.RcbReal
 import Refine.Lemmas.RcbPart
+import Refine.Lemmas.RcbDet
 
 /-!
   C04 (and the precondition of the C06 migration step, and the data side of C18): the native load balancer
@@ -100,7 +101,7 @@ theorem rcb_part_total (hst : ∀ n : Nat, 2 ≤ n → (splitRatio (α := α) (n
           ∧ ∀ (i : Nat) (nd : PNode α), nodes[i]? = some nd →
               (nd.part = (r : Int) → ∃ k, pr[i]? = some k ∧ 0 ≤ k ∧ k < (npart : Int)
                   ∧ ((assignments leaves).map fun a => key a.1).count (r, i) = 1
-                  ∧ ∃ a ∈ assignments leaves, key a.1 = (r, i) ∧ a.2 = k)
+                  ∧ ∃ a ∈ assignments leaves, key a.1 = (r, i) ∧ a.1.p = nd.p ∧ a.2 = k)
               ∧ (nd.part ≠ (r : Int) → pr[i]? = some (-1)) :=
   rcbPart_spec hst npart seed twod rands w h1 hn htot
 
@@ -257,6 +258,26 @@ theorem rcb_equal_points_same_part (t : M9 ℝ) (seed : Int) (twod : Bool) (npar
     (hl : rcbDirection t seed twod npart offset dir w = some leaves) :
     ∀ a ∈ assignments leaves, ∀ a' ∈ assignments leaves, a.1.p = a'.1.p → a.2 = a'.2 :=
   rcbDirection_deterministic t seed twod npart offset dir w w h1 hlen rfl htot (List.Perm.refl _) leaves leaves hl hl
+
+/-- `ref_migrate_native_rcb_part`: the new part of an owned vertex is a function of its coordinates, the multiset
+    of all owned coordinates, `npart`, the seed, the 2-D flag and the `rand()` values — and of nothing else.  Two
+    worlds with the same number of ranks that own the same coordinate multiset (vertices on other ranks, in other
+    slots, listed in another order, other ghosts, other global ids) give owned vertices with equal coordinates the
+    same entry of `node_part`. -/
+theorem rcb_part_deterministic (npart : Nat) (seed : Int) (twod : Bool) (rands : List Nat)
+    (w w' : World (List (PNode ℝ)))
+    (h1 : 1 ≤ npart) (hn : npart ≤ w.length) (hlen : w'.length = w.length)
+    (htot : (w.flatten.length : Int) ≤ INT_MAX) (htot' : (w'.flatten.length : Int) ≤ INT_MAX)
+    (hperm : ((w.mapIdx fun r nodes => ownedRecs r nodes).flatten.map (·.p)).Perm
+      ((w'.mapIdx fun r nodes => ownedRecs r nodes).flatten.map (·.p)))
+    (parts parts' : World (List Int))
+    (hp : rcbPart npart seed twod rands w = some parts) (hp' : rcbPart npart seed twod rands w' = some parts') :
+    ∀ (r : Nat) (nodes : List (PNode ℝ)) (pr : List Int) (i : Nat) (nd : PNode ℝ),
+      w[r]? = some nodes → parts[r]? = some pr → nodes[i]? = some nd → nd.part = (r : Int) →
+    ∀ (r' : Nat) (nodes' : List (PNode ℝ)) (pr' : List Int) (j : Nat) (nd' : PNode ℝ),
+      w'[r']? = some nodes' → parts'[r']? = some pr' → nodes'[j]? = some nd' → nd'.part = (r' : Int) →
+      nd.p = nd'.p → pr[i]? = pr'[j]? :=
+  Refine.Lemmas.Rcb.rcb_part_deterministic npart seed twod rands w w' h1 hn hlen htot htot' hperm parts parts' hp hp'
 
 end Data
 
